@@ -72,6 +72,9 @@ class Ctx:
         self.mc_runs.append(run)
         if coverage and r.coverage:
             self.action_coverage[module + (":" + tag if tag else "")] = r.coverage
+            for act, c in r.coverage.items():
+                if c["taken"] == 0:          # vacuity guard: an action of the model that no behaviour ever took
+                    self.info(f"model action never taken in this bounded run: {module}.{act}")
         if r.violated:
             path = self.write_replay({"kind": "model", "module": module, "tag": tag, "cfg": cfg,
                                       "violated": r.violated, "tlc_tail": r.raw_tail})
